@@ -252,6 +252,15 @@ func (o *OCIDir) manifestPut(ctx context.Context, r ref.Ref, m manifest.Manifest
 		desc.Annotations = map[string]string{
 			aOCIRefName: r.Tag,
 		}
+	} else if _, ok := desc.Annotations[aOCIRefName]; ok {
+		// a manifest fetched by tag carries that tag in its descriptor, a push by digest must not set or duplicate a tag
+		annot := map[string]string{}
+		for k, v := range desc.Annotations {
+			if k != aOCIRefName {
+				annot[k] = v
+			}
+		}
+		desc.Annotations = annot
 	}
 	// create manifest CAS file
 	dir := path.Join(r.Path, "blobs", desc.Digest.Algorithm().String())
